@@ -13,7 +13,7 @@ CONSTANTS Nib = {0, 1, 15}
           BOps <- OpsAll
           BatchLens = {}
           BatchSet <- MCBatchSet
-INVARIANTS CanonInv LookupInv IterInv WFInv BatchInv
+INVARIANTS CanonInv LookupInv IterInv IterFromInv WFInv BatchInv
 CONSTRAINT Small
 ACTION_CONSTRAINT Edge
 VIEW View
